@@ -46,6 +46,14 @@ def handleLine (line : String) : String :=
     | "c14n" => viaSpec (C14.handleNum args) obs
     | "c01" => Req.handleC01 args obs
     | "c01s" => Req.handleSeq args obs
+    | "c10s" =>
+      -- k stalled uploads hold k files; an upload that is abandoned meanwhile leaves none; at the end none is left
+      -- (per connection: `C10_no_leak`; connections do not share anything that one of them could be waiting for)
+      match args with
+      | [kS] =>
+        let model := s!"stalled={kS} after_victim_left={kS} after=0"
+        model ++ "\t" ++ (if obs == model then "ok" else if obs == "PANIC" then "FAIL:panic:" else "FAIL:temp-file-outlives-its-request:")
+      | _ => "bad-case\tFAIL:bad-case"
     | "c04p" =>
       -- the handler pool: `n` panicking handlers on a pool of `n` threads, two requests of other connections queued behind them;
       -- the pool model (`Pool.scenario`) says how many handler calls complete
